@@ -850,7 +850,10 @@ class Tracer:
         """('param', crate, def, i) -> join of argument i-1 over all workspace call sites."""
         _, crate, def_, i = node
         out = []
-        for c in self.callers(def_):
+        cs_all = self.callers(def_)
+        if len(cs_all) > 12:
+            return node          # widely used helper: joining over all call sites says nothing
+        for c in cs_all:
             if i - 1 < len(c.args):
                 out.append(self.operand(c.g.b, c.args[i - 1], c.loc, depth + 1))
         if not out:
@@ -859,6 +862,14 @@ class Tracer:
 
     def expand(self, node, upvars=True, params=False, limit=12):
         """Rewrite a node bottom-up resolving upvars (and optionally params) inter-procedurally."""
+        mk = ("expand", node, upvars, params)
+        if mk in self.memo:
+            return self.memo[mk]
+        r = self._expand(node, upvars, params, limit)
+        self.memo[mk] = r
+        return r
+
+    def _expand(self, node, upvars, params, limit):
         def rec(nd, fuel):
             if fuel <= 0 or not isinstance(nd, tuple):
                 return nd
